@@ -7,6 +7,7 @@ import (
 	"os"
 	"os/exec"
 	"path/filepath"
+	"runtime/debug"
 	"sort"
 	"strconv"
 	"strings"
@@ -69,11 +70,16 @@ func C08Worker(args []string) int {
 		lines = append(lines, c08Line(tr))
 		return writeLines(args[3], lines)
 	}
+	maxEnv, _ := strconv.Atoi(os.Getenv("VERIF_C08_ENVS")) // only the first n block environments (0: all)
+	if g, err := strconv.Atoi(os.Getenv("GOGC")); err == nil && g > 0 {
+		debug.SetGCPercent(g) // main() raises it for the explorer; here it is one of the varied settings
+	}
 	T, _ := strconv.Atoi(args[1])
 	K, _ := strconv.Atoi(args[2])
 	B, _ := strconv.Atoi(args[3])
 	cfg := explore.Config{World: w, Bounds: explore.Bounds{T: T, K: K, B: B}, Dedupe: true, Workers: 1, Opts: explore.Opts{NoDisk: true}, // one worker: the set of explored histories is then a function of the node's behaviour only
 		MenuFilter: func(depth int, prefix []int, item int) bool { return w.Menu[item].Replay == 0 && !w.Menu[item].StealSig },
+		EnvFilter:  func(depth, env int) bool { return maxEnv <= 0 || env < maxEnv },
 		OnTransition: func(t *explore.Transition, newState bool) []explore.Violation {
 			mu.Lock()
 			lines = append(lines, c08Line(t.Cur))
@@ -106,9 +112,12 @@ func seedsBinary() string {
 	return exe + ".seeds"
 }
 
+// c08Envs limits the block environments of the world being explored (set per world by the check).
+var c08Envs int
+
 func runC08Worker(cfg c08Config, args []string) error {
 	cmd := exec.Command(seedsBinary(), append([]string{"c08worker"}, args...)...)
-	cmd.Env = append(os.Environ(), fmt.Sprintf("VERIF_MAPSEED=%d", cfg.Seed), fmt.Sprintf("GOMAXPROCS=%d", cfg.Procs), fmt.Sprintf("GOGC=%d", cfg.GC))
+	cmd.Env = append(os.Environ(), fmt.Sprintf("VERIF_MAPSEED=%d", cfg.Seed), fmt.Sprintf("GOMAXPROCS=%d", cfg.Procs), fmt.Sprintf("GOGC=%d", cfg.GC), fmt.Sprintf("VERIF_C08_ENVS=%d", c08Envs))
 	out, err := cmd.CombinedOutput()
 	if err != nil {
 		return fmt.Errorf("%s: %v: %s", cfg, err, out)
@@ -152,22 +161,23 @@ func init() {
 		type wr struct {
 			world   string
 			T, K, B int
+			envs    int // only the first n block environments (0: all); the fast-forward environments of the staking worlds run hundreds of blocks per step
 		}
 		// quick: one block of up to two transactions in the two widest transaction worlds, short
 		// histories in the staking / order-book worlds, and the worlds with more than 100 candidates
 		// (the structures whose iteration order matters are the ones with many entries)
-		worldsQ := []wr{{"pay", 2, 2, 1}, {"coin", 2, 2, 1}, {"stake", 1, 1, 2}, {"book", 1, 1, 2}, {"stakemany", 1, 1, 2}, {"stakemanytie", 1, 1, 2}}
-		worldsT := []wr{{"pay", 3, 2, 3}, {"coin", 3, 2, 3}, {"stake", 2, 2, 2}, {"book", 2, 2, 2}, {"pool", 2, 2, 2}, {"stakemany", 2, 1, 3}, {"stakemanytie", 2, 2, 3}, {"stakemany102", 1, 1, 3}}
+		worldsQ := []wr{{"pay", 2, 2, 1, 0}, {"coin", 2, 2, 1, 0}, {"stake", 2, 2, 2, 1}, {"book", 1, 1, 2, 0}, {"stakemany", 1, 1, 3, 1}, {"stakemanytie", 2, 2, 2, 1}}
+		worldsT := []wr{{"pay", 3, 2, 3, 0}, {"coin", 3, 2, 3, 0}, {"stake", 2, 2, 2, 0}, {"book", 2, 2, 2, 0}, {"pool", 2, 2, 2, 0}, {"stakemany", 2, 1, 3, 1}, {"stakemanytie", 2, 2, 3, 1}, {"stakemany102", 1, 1, 3, 1}}
 		var cfgs []c08Config
 		if c.Quick() {
 			// seed = start bucket << 3 | in-bucket offset: 16 different start buckets, all 8 offsets
 			for i := 0; i < 16; i++ {
-				cfgs = append(cfgs, c08Config{Seed: i*8 + i%8, Procs: []int{1, 16}[i%2], GC: []int{100, 1}[(i/2)%2]})
+				cfgs = append(cfgs, c08Config{Seed: i*8 + i%8, Procs: []int{1, 16}[i%2], GC: []int{100, 10}[(i/2)%2]})
 			}
 		} else {
 			for i := 0; i < 64; i++ {
 				for _, p := range []int{1, 16} {
-					cfgs = append(cfgs, c08Config{Seed: i*8 + (i+i/8)%8, Procs: p, GC: []int{100, 1}[i%2]})
+					cfgs = append(cfgs, c08Config{Seed: i*8 + (i+i/8)%8, Procs: p, GC: []int{100, 10}[i%2]})
 				}
 			}
 			worldsQ = worldsT
@@ -180,6 +190,7 @@ func init() {
 		var samples []interface{}
 		exhaustive := true
 		for _, w := range worldsQ {
+			c08Envs = w.envs
 			files := make([]string, len(cfgs))
 			errs := make([]error, len(cfgs))
 			sem := make(chan struct{}, 16)
